@@ -117,15 +117,8 @@ func (c *DefaultMatcher) Match(args []reflect.Value) bool {
 		args = args[1:]
 	}
 	if c.isVariadic {
-		// 可变参数需要展开参数数组
-		expandArgs := make([]reflect.Value, 0)
-		for _, v := range args {
-			rv := reflect.ValueOf(v.Interface())
-			for i := 0; i < rv.Len(); i++ {
-				expandArgs = append(expandArgs, rv.Index(i))
-			}
-		}
-		args = expandArgs
+		// 可变参数需要展开参数数组(只有最后一个参数是可变参数数组)
+		args = arg.ExpandVariadic(args)
 	}
 	if len(args) != len(c.exprs) {
 		return false
